@@ -4,7 +4,7 @@
    the surface syntax of an abstract program under a style number, and
    Meaning.meaning what the program denotes, computed without gmars. *)
 From GM Require Import Base Text Token Lexer Scanner ExprSpec ExprEval Parser Compile Sim Prog Meaning Render AsmSpec
-     C03Proof C06Proof C09Proof.
+     C03Proof C03Lexer C06Proof C09Proof.
 Open Scope Z_scope.
 
 (* the property at full strength, on the model *)
@@ -13,6 +13,29 @@ Definition C03_full_statement : Prop :=
     validate cfg = true ->
     meaning (mconf_of cfg) p = MOk code start ->
     exists meta, compile_warrior cfg (render s p) = COk code start meta.
+
+(* proved, at the lexer stage: a text written as any sequence of well-placed lexemes (blank runs, words,
+   numbers, symbols, commas, parentheses, colons, comments), closed by white space, is tokenised into exactly
+   the tokens of its lexemes in order; a blank run contributes one newline token per line feed and nothing
+   else - so the amount and kind of white space between lexemes, and blank lines' contents, do not matter *)
+Theorem C03_lexer_partial :
+  forall ps tail,
+    Forall (fun x => is_space_a x = true) tail -> tail <> [] -> pieces_ok ps tail ->
+    lex_ascii (flat_map ptext ps ++ tail) = Some (flat_map ptoks ps ++ newlines tail ++ [tEOF]).
+Proof. exact lex_text. Qed.
+Print Assumptions C03_lexer_partial.
+
+Theorem C03_spacing_independent_partial :
+  forall ps tail ps' tail',
+    Forall (fun x => is_space_a x = true) tail -> tail <> [] -> pieces_ok ps tail ->
+    Forall (fun x => is_space_a x = true) tail' -> tail' <> [] -> pieces_ok ps' tail' ->
+    flat_map ptoks ps = flat_map ptoks ps' -> newlines tail = newlines tail' ->
+    lex_ascii (flat_map ptext ps ++ tail) = lex_ascii (flat_map ptext ps' ++ tail').
+Proof.
+  intros ps tail ps' tail' H1 H2 H3 H4 H5 H6 E1 E2.
+  rewrite (lex_text ps tail H1 H2 H3), (lex_text ps' tail' H4 H5 H6), E1, E2. reflexivity.
+Qed.
+Print Assumptions C03_spacing_independent_partial.
 
 (* proved, at the compile stage (from parsed source lines to instructions): *)
 
@@ -75,7 +98,7 @@ Theorem C03_entry_point_partial :
 Proof. exact entry_point. Qed.
 Print Assumptions C03_entry_point_partial.
 
-(* missing: the lexer / parser stages (independence from spacing, blank and comment lines, colon suffixes,
-   label spelling, EQU placement) and the composition into C03_full_statement.  These are decided on every
+(* missing: the symbol-scanner and parser stages (blank and comment lines, colon suffixes, label spelling,
+   EQU placement) and the composition into C03_full_statement.  These are decided on every
    run by the two-stage correspondence: generated abstract programs are rendered under several styles by the
    extracted Render, assembled by gmars and by the extracted model, and compared with the extracted Meaning. *)
